@@ -14,10 +14,12 @@
    histories it covers, and is proved outright at command level (below).
    Caller-side cancellation (Deferred.cancel(), an expired addTimeout) is treated at command level
    (Spec/C03Cancel.v, Model/CtlCancel.v, Proofs/C03Cancel.v: whole replies, one `called` flag per
-   command): C03_cancel_* - the model of queue_command / _maybe_issue_command / reply dispatch /
-   connectionLost IS the reference machine for every operation sequence; no command is resolved twice;
-   after the loss every submitted command is resolved (by its reply, by the caller, or by the loss);
-   nothing is written after the loss. *)
+   command), together with disconnect observers whose callbacks call back into the protocol (ask to
+   be told again, submit a command): C03_cancel_* - the model of queue_command / _maybe_issue_command /
+   reply dispatch / when_disconnected / connectionLost IS the reference machine for every operation
+   sequence; no command is resolved twice; after the loss every submitted command - those submitted
+   from inside a disconnect notification included - is resolved (by its reply, by the caller, or by
+   the loss); every request to be told is honoured exactly once; nothing is written after the loss. *)
 From Coq Require Import List Bool Ascii Arith NArith.
 From TxVerif Require Import Lib.Bytes Spec.Ctl Model.CtlProto Proofs.CtlInv.
 From TxVerif Require Import Spec.CtlOracle Proofs.CtlRefine Proofs.CtlRefine3.
@@ -70,7 +72,9 @@ Theorem C03_model_is_reference : forall lbehs items ops tr,
 Proof. exact model_is_reference. Qed.
 Print Assumptions C03_model_is_reference.
 
-(* ---- command level, with caller-side cancellation: every operation sequence ---- *)
+(* ---- command level: caller-side cancellation and re-entrant disconnect observers; every operation
+   sequence of submissions, cancellations, whole replies, notification requests (whose callbacks do
+   nothing / ask again / submit a command) and the loss ---- *)
 Theorem C03_cancel_model_is_reference : forall ops, q_run ops = q_ref ops.
 Proof. exact model_is_reference_cancel. Qed.
 Print Assumptions C03_cancel_model_is_reference.
@@ -79,22 +83,42 @@ Theorem C03_cancel_resolved_at_most_once : forall ops tr, q_ref ops = Some tr ->
 Proof. exact cancel_resolved_at_most_once. Qed.
 Print Assumptions C03_cancel_resolved_at_most_once.
 
-Theorem C03_cancel_all_resolved_after_loss : forall ops tr, q_ref ops = Some tr -> In QLose ops ->
-  forall k, (k < n_submits ops)%N -> In k (res_ids tr).
+(* r_n of the final state = how many commands were submitted, by the application or by observers' callbacks *)
+Theorem C03_cancel_all_resolved_after_loss : forall ops s' tr,
+  r_exec r_init ops = Some (s', tr) -> r_lost s' = true ->
+  forall k, (k < r_n s')%N -> In k (res_ids tr).
 Proof. exact cancel_all_resolved_after_loss. Qed.
 Print Assumptions C03_cancel_all_resolved_after_loss.
 
+Theorem C03_cancel_notified_at_most_once : forall ops tr, q_ref ops = Some tr -> NoDup (note_ids tr).
+Proof. exact cancel_notified_at_most_once. Qed.
+Print Assumptions C03_cancel_notified_at_most_once.
+
+(* r_nw of the final state = how many requests to be told were made, nested ones included *)
+Theorem C03_cancel_all_notified_after_loss : forall ops s' tr,
+  r_exec r_init ops = Some (s', tr) -> r_lost s' = true ->
+  forall w, (w < r_nw s')%N -> In w (note_ids tr).
+Proof. exact cancel_all_notified_after_loss. Qed.
+Print Assumptions C03_cancel_all_notified_after_loss.
+
+Theorem C03_cancel_loss_is_final : forall ops s' tr,
+  r_exec r_init ops = Some (s', tr) -> In QLose ops -> r_lost s' = true.
+Proof. intros ops s' tr H Hin. exact (exec_lost ops _ _ _ H (or_introl Hin)). Qed.
+Print Assumptions C03_cancel_loss_is_final.
+
 Theorem C03_cancel_nothing_written_after_loss : forall pre post tr,
-  q_ref (pre ++ QLose :: post) = Some tr ->
-  forallb (fun e => negb (is_wrote e)) (List.concat (skipn (length pre) tr)) = true.
+  q_ref (pre ++ QLose :: post) = Some tr -> quiet (List.concat (skipn (length pre) tr)) = true.
 Proof. exact cancel_nothing_written_after_loss. Qed.
 Print Assumptions C03_cancel_nothing_written_after_loss.
 
-(* three commands, the caller gives up on the one in flight and on a queued one, then the loss:
-   only the remaining one fails at the loss; a late submission fails at once *)
+(* three commands, the caller gives up on the one in flight and on a queued one; two observers, one
+   submitting a command, one asking again; then the loss: the observers are told in order (the nested
+   request at once), the command submitted by the callback joins the outstanding ones, only the
+   commands nobody has resolved fail; a late submission fails at once *)
 Example C03_cancel_nonvacuous :
-  q_run [QSubmit; QSubmit; QSubmit; QCancel 0; QCancel 2; QLose; QSubmit]%N
-  = Some [[QWrote 0]; []; []; [QRes 0 QCancelled]; [QRes 2 QCancelled]; [QRes 1 QDisc]; [QRes 3 QDisc]]%N.
+  q_run [QSubmit; QSubmit; QSubmit; QWatch WSubmit; QWatch WNested; QCancel 0; QCancel 2; QLose; QSubmit]%N
+  = Some [[QWrote 0]; []; []; []; []; [QRes 0 QCancelled]; [QRes 2 QCancelled];
+          [QNote 0; QNote 1; QNote 2; QRes 1 QDisc; QRes 3 QDisc]; [QRes 4 QDisc]]%N.
 Proof. vm_compute. reflexivity. Qed.
 
 (* non-vacuity: two commands outstanding and one observer, then the loss, then a late submit *)
